@@ -37,7 +37,10 @@ SHAPES = [
     # trivial cone output (equals a leaf) listed several times among the circuit outputs
     (2, (('AND', (0, 1)), ('OR', (2, 0))), (3, 3)),
     (3, (('AND', (0, 1)), ('OR', (3, 0)), ('XOR', (1, 2))), (4, 5, 4)),
+    # six inputs: cuts with six leaves exist once cut_size >= 6 (p, q, r over disjoint input pairs, improvable top)
+    (6, (('AND', (0, 1)), ('OR', (2, 3)), ('XOR', (4, 5)), ('XOR', (6, 7)), ('AND', (7, 8)), ('OR', (9, 10)), ('XOR', (11, 6))), (12, 10)),
 ]
+WIDE_SHAPES = {18}  # run with the wide-cut parameter sets only
 
 
 class PSet(set):
@@ -303,6 +306,13 @@ PARAM_SETS = {
     'limit1': {'solver_time_limit_sec': 0, 'cut_limit': 1},
     'validpool': {'solver_time_limit_sec': 15, 'enable_validation': True, 'cut_size': 3},
 }
+WIDE_PARAM_SETS = {
+    'cut5': {'solver_time_limit_sec': 0, 'cut_size': 5},
+    'cut6': {'solver_time_limit_sec': 0, 'cut_size': 6, 'max_subcircuit_size': 6},
+    'cut7': {'solver_time_limit_sec': 0, 'cut_size': 7, 'max_subcircuit_size': 6, 'cut_limit': 12},
+    'cut6valid': {'solver_time_limit_sec': 0, 'cut_size': 6, 'max_subcircuit_size': 6, 'enable_validation': True},
+    'cut4': {'solver_time_limit_sec': 0, 'cut_size': 4, 'max_subcircuit_size': 5},
+}
 
 
 def basis_arg(b):
@@ -331,7 +341,7 @@ def plan(tier):
 
 def describe(tier):
     return {
-        'rule': 'topo: three five-gate topologies of a two-output cone over three leaves whose outputs share an inner gate x {AND,OR,XOR}^5 (729 circuits, XAIG, direct solver call; thorough also AIG+validation and set-order deviations); label deviations: node labels drawn from the names the library generates itself (tmp_<i>, decimal labels of synthesised circuits), ascending/descending; circuit of F(n,k,A04) (11 supported gate types; A04S = {NOT,AND,OR,XOR,GT,NOR}) x outputs {last gate, last gate twice, all sinks, all gates} x '
+        'rule': 'wide cuts: a six-input shape with cut_size 4..7 (cuts of six leaves); topo: three five-gate topologies of a two-output cone over three leaves whose outputs share an inner gate x {AND,OR,XOR}^5 (729 circuits, XAIG, direct solver call; thorough also AIG+validation and set-order deviations); label deviations: node labels drawn from the names the library generates itself (tmp_<i>, decimal labels of synthesised circuits), ascending/descending; circuit of F(n,k,A04) (11 supported gate types; A04S = {NOT,AND,OR,XOR,GT,NOR}) x outputs {last gate, last gate twice, all sinks, all gates} x '
         'basis {AIG, XAIG, FULL, "xaig"} x parameter sets (direct solver call, pool path, validation on, small cut/size limits, cut_limit 1) '
         'x E3: default environment, then every single deviation (solver model: other phase / mixed phase; solver time-out '
         'on each solver call (fake pool); cut family: reversed per-node order, reversed leaf order, dominated cuts kept, trivial cut '
@@ -359,6 +369,12 @@ def run_task(task, acc):
     if task['kind'] == 'shape':
         n, gates, outs = SHAPES[task['i']]
         heavy = task['i'] in HEAVY_SHAPES
+        if task['i'] in WIDE_SHAPES:
+            for b in ('XAIG', 'AIG', 'FULL'):
+                for pname, params in WIDE_PARAM_SETS.items():
+                    check_circuit(acc, n, gates, outs, basis_arg(b), dict(params), 1 if (b == 'XAIG' and task['dev'] >= 2 and pname == 'cut6') else 0, only_set=True)
+            acc.sample({**space.spec_json(n, gates, outs), 'basis': 'XAIG', 'params': WIDE_PARAM_SETS['cut6'], 'env': {}})
+            return
         for b in ('AIG', 'XAIG', 'FULL', 'xaig'):
             for pname, params in PARAM_SETS.items():
                 if heavy:
